@@ -98,7 +98,7 @@ func extras(t *rapid.T, n int, label string) []float64 {
 }
 
 func genCase(t *rapid.T) Case {
-	class := rapid.SampledFrom([]string{"near", "near", "near", "near-shared-exp", "near-small-int-dir", "shared", "axis", "random", "random-shared-exp", "grid-big", "filter-edge", "filter-edge", "int-bezout", "int-bezout"}).Draw(t, "class")
+	class := rapid.SampledFrom([]string{"near", "near", "near", "near-shared-exp", "near-small-int-dir", "shared", "axis", "random", "random-shared-exp", "grid-big", "filter-edge", "filter-edge", "int-bezout", "int-bezout", "whole-long-thin"}).Draw(t, "class")
 	var a, b, c [2]float64
 	shared := 9999
 	if class == "near-shared-exp" || class == "random-shared-exp" {
@@ -187,6 +187,46 @@ func genCase(t *rapid.T) Case {
 		c = [2]float64{half("cx"), half("cy")}
 		// the roles of the three points in the call are drawn too
 		switch rapid.IntRange(0, 2).Draw(t, "role") {
+		case 1:
+			a, c = c, a
+		case 2:
+			b, c = c, b
+		}
+	case "whole-long-thin":
+		// a long thin triangle of whole numbers: a small origin (a multiple of a power of
+		// two, so that its differences with large numbers can be exact), an end 2^40..2^61
+		// away in a direction of small whole numbers, and the third point further along
+		// the same line (or back towards the origin), a few units in the last place aside:
+		// edge components that are whole, exactly computed, and wider than 53 bits together
+		unit := math.Ldexp(1, rapid.SampledFrom([]int{0, 8, 16, 24, 31, 32}).Draw(t, "wshift"))
+		w := func(l string) float64 { return float64(rapid.IntRange(-500, 500).Draw(t, l)) * unit }
+		a = [2]float64{w("wax"), w("way")}
+		u, v := float64(rapid.IntRange(-9, 9).Draw(t, "wu")), float64(rapid.IntRange(-9, 9).Draw(t, "wv"))
+		if u == 0 && v == 0 {
+			u = 1
+		}
+		m := math.Ldexp(float64(rapid.Int64Range(1<<20, 1<<21).Draw(t, "wm")), rapid.IntRange(20, 40).Draw(t, "wme"))
+		b = [2]float64{a[0] + m*u, a[1] + m*v}
+		tt := rapid.SampledFrom([]float64{1, 2, 3, 0.5, -0.5, 4, 7}).Draw(t, "wt")
+		if rapid.Bool().Draw(t, "wfullbits") {
+			// the same with every bit in use: an origin of arbitrary small whole numbers, an
+			// end of 50-52 bits that is a multiple of 2^31 (so origin-to-end is exact and 52
+			// bits wide), and a third point 2 to 2000 times further out
+			a = [2]float64{float64(rapid.IntRange(-1000, 1000).Draw(t, "wfax")), float64(rapid.IntRange(-1000, 1000).Draw(t, "wfay"))}
+			hi := func(l string) float64 {
+				v := float64(rapid.Int64Range(1<<19, 1<<21-1).Draw(t, l)) * 0x1p31
+				if rapid.Bool().Draw(t, l+"neg") {
+					v = -v
+				}
+				return v
+			}
+			b = [2]float64{hi("wfbx"), hi("wfby")}
+			tt = float64(rapid.IntRange(2, 2000).Draw(t, "wft"))
+		}
+		for i := 0; i < 2; i++ {
+			c[i] = nudge(t, inDomain(b[i]+tt*(b[i]-a[i])), "wnudge")
+		}
+		switch rapid.IntRange(0, 2).Draw(t, "wrole") {
 		case 1:
 			a, c = c, a
 		case 2:
@@ -322,6 +362,30 @@ func prop(cs Case) error {
 		}
 		if r1, r2 := int(f.f(b, c, a)), int(f.f(c, a, b)); r1 != got || r2 != got {
 			return fmt.Errorf("%s: cyclic rotations give %d, %d, want %d", f.name, r1, r2, got)
+		}
+		// points that coincide handed over as one and the same slice
+		same := func(x, y []float64) bool {
+			if len(x) != len(y) {
+				return false
+			}
+			for i := range x {
+				if math.Float64bits(x[i]) != math.Float64bits(y[i]) {
+					return false
+				}
+			}
+			return true
+		}
+		sa, sb, sc := a, b, c
+		if same(sa, sb) {
+			sb = sa
+		}
+		if same(sa, sc) {
+			sc = sa
+		} else if same(sb, sc) {
+			sc = sb
+		}
+		if r := int(f.f(sa, sb, sc)); r != got {
+			return fmt.Errorf("%s with coinciding points passed as one slice = %d, %d with separate slices", f.name, r, got)
 		}
 		// the three coordinates as windows of one flat array (what Coord(i) and slicing
 		// FlatCoords hand out: each window's capacity runs on over its neighbours), laid
